@@ -977,6 +977,33 @@ func (c *Ctx) c05Errors(headerSites, bodySites []readSite) {
 			}
 		}
 		r.Check(good, "R5", key, c.pos(call), "a failed body read leads to a non-nil error return", "a failed body read does not lead to an error return: a stream ending inside a message goes unreported")
+		// … and that error is not the read's own error value: a full-read combinator reports io.EOF when the
+		// stream ends before the first byte of *this* read, which inside a body (chunk boundary, or right after
+		// the header) still is a message cut short — handed on as it is, it reads as a clean end of stream
+		if good {
+			var rawAt ssa.Instruction
+			flow.Instrs(s.fn, func(in ssa.Instruction) {
+				ret, ok := in.(*ssa.Return)
+				if !ok || len(ret.Results) == 0 || rawAt != nil {
+					return
+				}
+				last := ret.Results[len(ret.Results)-1]
+				if !isErrorType(last.Type()) {
+					return
+				}
+				for _, src := range flow.SpillSources(last) {
+					if srcs[src] {
+						rawAt = ret
+					}
+				}
+			})
+			rkey := fmt.Sprintf("%s:body-read-error-not-eof@%s", fname(s.fn), s.kind)
+			if rawAt != nil {
+				r.Fail("R5", rkey, c.pos(rawAt), "the error of a body read is returned as it is: when the stream ends exactly where a body read starts (right after the header, or at a chunk boundary) that error is io.EOF, and a message cut short is reported as a clean end of the stream")
+			} else {
+				r.Ok("R5", rkey, c.pos(call), "the body read's error is never returned unconverted (it cannot surface as io.EOF)")
+			}
+		}
 	}
 }
 
